@@ -351,6 +351,9 @@ func cmdCheck(args []string) int {
 	for _, t := range trusted {
 		as = append(as, "assumed (trusted/external) contract: "+t)
 	}
+	if len(p.overlayDiffers) > 0 {
+		as = append(as, "contract files in the repository tree differ from /verif/contracts (the /verif copy was used): "+strings.Join(p.overlayDiffers, ", "))
+	}
 	if len(p.overlayUsed) > 0 {
 		as = append(as, "contract files supplied through the loader overlay from /verif/contracts (not present in the repository tree): "+strings.Join(p.overlayUsed, ", "))
 	}
